@@ -224,7 +224,24 @@ func tMul(a, b string) string {
 	return app("*", a, b)
 }
 
-func tSel(arr, i string) string    { return app("select", arr, i) }
+func tSel(arr, i string) string {
+	// select of a constant array folds to its element
+	if strings.HasPrefix(arr, "((as const ") {
+		depth := 0
+		for k := 1; k < len(arr); k++ {
+			switch arr[k] {
+			case '(':
+				depth++
+			case ')':
+				depth--
+				if depth == 0 {
+					return strings.TrimSpace(arr[k+1 : len(arr)-1])
+				}
+			}
+		}
+	}
+	return app("select", arr, i)
+}
 func tSto(arr, i, v string) string { return app("store", arr, i, v) }
 func tLe(a, b string) string       { return app("<=", a, b) }
 func tLt(a, b string) string       { return app("<", a, b) }
